@@ -337,7 +337,7 @@ async fn prepare(req: &mut Request, ccx: &CallContext<'_>) -> S3Result<Prepare> 
                 *val = fmt_content_length(decoded_content_length.unwrap_or(0));
             }
             if let Some(val) = &mut content_length {
-                *val = 0;
+                *val = decoded_content_length.unwrap_or(0) as u64;
             }
         }
         if let Some(body) = transformed_body {
